@@ -121,12 +121,12 @@ func (c14) Plan(tier string) []core.Segment {
 		{Gen: "spec", Count: gen.CorpusSize(), Exhaustive: true},
 		{Gen: "specprefix", Count: gen.PrefixCount(), Exhaustive: true, Desc: "every prefix: documents ending inside every construct"},
 		{Gen: "small", Profile: small, Count: gen.Size("small", small), Exhaustive: true},
-		{Gen: "lines", Profile: "default", Count: scale(tier, 200_000, 8_000_000)},
-		{Gen: "lines", Profile: "lf", Count: scale(tier, 200_000, 8_000_000)},
-		{Gen: "soup", Profile: "default", Count: scale(tier, 150_000, 6_000_000)},
-		{Gen: "soup", Profile: "tabfree", Count: scale(tier, 100_000, 4_000_000)},
-		{Gen: "soup", Profile: "html", Count: scale(tier, 50_000, 2_000_000)},
-		{Gen: "specmut", Count: scale(tier, 100_000, 4_000_000)},
+		{Gen: "lines", Profile: "default", Count: scale(tier, 600_000, 8_000_000)},
+		{Gen: "lines", Profile: "lf", Count: scale(tier, 600_000, 8_000_000)},
+		{Gen: "soup", Profile: "default", Count: scale(tier, 450_000, 6_000_000)},
+		{Gen: "soup", Profile: "tabfree", Count: scale(tier, 300_000, 4_000_000)},
+		{Gen: "soup", Profile: "html", Count: scale(tier, 150_000, 2_000_000)},
+		{Gen: "specmut", Count: scale(tier, 300_000, 4_000_000)},
 	}
 }
 
@@ -284,11 +284,11 @@ func (c16) Plan(tier string) []core.Segment {
 		{Gen: "spec", Count: gen.CorpusSize(), Exhaustive: true},
 		{Gen: "specprefix", Count: gen.PrefixCount(), Exhaustive: true},
 		{Gen: "small", Profile: small, Count: gen.Size("small", small), Exhaustive: true},
-		{Gen: "lines", Profile: "default", Count: scale(tier, 250_000, 10_000_000)},
-		{Gen: "lines", Profile: "hostile", Count: scale(tier, 50_000, 2_000_000)},
-		{Gen: "soup", Profile: "default", Count: scale(tier, 200_000, 8_000_000)},
-		{Gen: "soup", Profile: "crnul", Count: scale(tier, 50_000, 2_000_000)},
-		{Gen: "specmut", Count: scale(tier, 150_000, 6_000_000)},
+		{Gen: "lines", Profile: "default", Count: scale(tier, 750_000, 10_000_000)},
+		{Gen: "lines", Profile: "hostile", Count: scale(tier, 150_000, 2_000_000)},
+		{Gen: "soup", Profile: "default", Count: scale(tier, 600_000, 8_000_000)},
+		{Gen: "soup", Profile: "crnul", Count: scale(tier, 150_000, 2_000_000)},
+		{Gen: "specmut", Count: scale(tier, 450_000, 6_000_000)},
 	}
 }
 
@@ -373,9 +373,9 @@ func (c09) Rule() string {
 func (c09) Plan(tier string) []core.Segment {
 	return []core.Segment{
 		{Gen: "spec", Profile: "tabfree", Count: gen.CorpusSize(), Exhaustive: true},
-		{Gen: "lines", Profile: "tabfree", Count: scale(tier, 250_000, 10_000_000)},
-		{Gen: "soup", Profile: "tabfree", Count: scale(tier, 200_000, 8_000_000)},
-		{Gen: "specmut", Profile: "tabfree", Count: scale(tier, 150_000, 6_000_000)},
+		{Gen: "lines", Profile: "tabfree", Count: scale(tier, 750_000, 10_000_000)},
+		{Gen: "soup", Profile: "tabfree", Count: scale(tier, 600_000, 8_000_000)},
+		{Gen: "specmut", Profile: "tabfree", Count: scale(tier, 450_000, 6_000_000)},
 		{Gen: "small", Profile: "c16:5", Count: gen.Size("small", "c16:5"), Exhaustive: true},
 	}
 }
